@@ -66,6 +66,7 @@ var c13DBCounter int
 
 func (s c13Spec) build() *c13Built {
 	b := &c13Built{}
+	pre, _ := repoGoroutines()
 	hctx, hcancel := context.WithCancel(context.Background())
 	var dbs []*sql.DB
 	var hs []mocrelay.Handler
@@ -109,7 +110,9 @@ func (s c13Spec) build() *c13Built {
 	b.h = h
 	b.cleanup = func() {
 		hcancel()
-		time.Sleep(time.Millisecond)
+		// the handlers' own workers (SQLite bulk inserter) end with their context: wait for them, so that the
+		// next case measures its baseline on a quiet process
+		waitGoroutines(pre, 3*time.Second)
 		for _, db := range dbs {
 			db.Close()
 		}
@@ -209,6 +212,10 @@ func runC13Case(spec c13Spec, hist []mocrelay.ClientMsg, cut int, ending, peer s
 		}
 	}
 	left, sample := waitGoroutines(base, 3*time.Second)
+	if left < 0 {
+		// fewer than before the session: a worker of an earlier case ended meanwhile; nothing of this session is left
+		left = 0
+	}
 	out := M{"returned": returned, "leftover": left, "fed": fed}
 	if left > 0 {
 		if len(sample) > 1500 {
